@@ -56,12 +56,24 @@ def build(rng: random.Random, combo: tuple, transport: str, order: str) -> dict:
         device["replies"] = {"HelloRequest": [{"msgs": [hr, hr]}]}
     elif order == "one_by_one":
         device["replies"] = {"HelloRequest": [{"msgs": [hr], "split": True}], "ConnectRequest": [{"msgs": [cr], "split": True, "delay": 0.001}]}
+    # close coincidence: the device ends the session right behind its verdict (same write, usually the same chunk);
+    # the verdict came first in stream order, so the specific error is still what the call must raise
+    trailer = None
+    if order in ("normal", "split", "one_by_one") and rng.random() < 0.3:
+        trailer = pick(rng, ["dev_disconnect", "bad_payload", "dev_disconnect+state"])
+        tmsgs: list = {"dev_disconnect": [["DisconnectRequest", {}]], "bad_payload": [{"type": 10, "payload_hex": "0aff01", "name": "#bad_payload"}], "dev_disconnect+state": [["DisconnectRequest", {}], ["SwitchStateResponse", {"key": 1, "state": True}]]}[trailer]
+        last_req, last_msg = ("ConnectRequest", cr) if login else ("HelloRequest", hr)
+        rep = device.setdefault("replies", {}).get(last_req)
+        if rep and isinstance(rep[0], dict):
+            rep[0]["msgs"] = list(rep[0]["msgs"]) + tmsgs
+        else:
+            device["replies"][last_req] = [{"msgs": [last_msg] + tmsgs}]
     steps = [{"do": "connect", "login": login}] if rng.random() < 0.6 else [{"do": "start"}, {"do": "finish", "login": login}]
     steps.append({"do": "sleep", "d": 0.5})
     steps.append({"do": "disconnect"})
     return {
         "family": "session",
-        "combo": {"major": major, "minor": minor, "api_name": api_name, "noise_name": nname if transport == "noise" else None, "expected": expected, "login": login, "bad_pw": bad_pw, "order": order if (order != "reversed" or login) else "normal", "transport": transport},
+        "combo": {"major": major, "minor": minor, "api_name": api_name, "noise_name": nname if transport == "noise" else None, "expected": expected, "login": login, "bad_pw": bad_pw, "order": order if (order != "reversed" or login) else "normal", "transport": transport, "trailer": trailer},
         "knobs": gen_knobs(rng),
         "client": client,
         "device": device,
@@ -105,7 +117,7 @@ def handshake_oracle(ix: Index, scn: dict) -> list[Violation]:
         cls = err.get("cls")
         if not err.get("api"):
             out.append(Violation("reject-unclassified", str(cls), f"rejected with non-API error {cls}: {err.get('text')}"))
-        if not reasons and not empty_names and cb["order"] in ("normal", "split", "one_by_one") and cb["major"] == 1:
+        if not reasons and not empty_names and cb["order"] in ("normal", "split", "one_by_one") and cb["major"] == 1 and not cb.get("trailer"):
             out.append(Violation("rejected-valid", str(cls), f"a compatible, correctly named, authenticated device was rejected with {cls}: {err.get('text')}; combo={cb}"))
         if reasons and cb["order"] in ("normal", "split", "one_by_one"):
             ok = False
